@@ -243,6 +243,41 @@ def case_merge(rng, tier, cid):
     return dict(id=cid, ops=g.ops, tags=sorted(g.tags))
 
 
+def case_merge_small(rng, tier, cid):
+    """Few items relative to k (so c = W/w_max < k and the maximum weight matters), each sketch on its own weight scale,
+       merges in both directions, then small updates: this is where the bookkeeping of w_max across a merge shows."""
+    g = G(rng, tier)
+    g.ops.append([99, rng.getrandbits(32)])
+    nreg = rng.choice([2, 2, 3])
+    kbig = rng.choice([8, 16, 32, 100])
+    for r in range(nreg):
+        g.new(r, kbig if rng.random() < 0.6 else rng.choice([8, 13, 16, 32, 100]))
+    scales = [1.0, 4.0, 0.25, 10.0, 64.0, 3.0]
+    rng.shuffle(scales)
+    for r in range(nreg):
+        n = rng.randint(1, max(1, g.k[r] // 3))
+        sc = scales[r]
+        g.feed(r, [sc * rng.choice([1, 1, 2, 0.5]) for _ in range(n)], 0)
+        g.query(r, full=False)
+    for _ in range(rng.choice([1, 2, 3])):
+        live = sorted(g.k.keys())
+        if len(live) < 2:
+            break
+        a, b = rng.sample(live, 2)
+        g.merge(a, b, rng.randrange(2))
+        g.query(a)
+        small = min(scales[:nreg]) * rng.choice([1, 0.5, 0.125])
+        for _ in range(rng.choice([1, 2, 5])):
+            g.upd(a, small)
+            g.query(a, full=(rng.random() < 0.3))
+        if rng.random() < 0.3:
+            g.roundtrip(a, 9)
+            g.upd(9, small)
+            g.query(9)
+    g.tags.add('merge-small')
+    return dict(id=cid, ops=g.ops, tags=sorted(g.tags))
+
+
 def case_refusals(rng, tier, cid):
     g = G(rng, tier)
     g.ops.append([99, rng.getrandbits(32)])
@@ -269,14 +304,16 @@ def case_refusals(rng, tier, cid):
 
 
 def gen(rng, tier):
-    n = 150 if tier == 'quick' else 2500
+    n = 300 if tier == 'quick' else 4000
     cases = []
     for ci in range(n):
         c = ci % 10
         if c in (0, 1, 2, 3):
             cases.append(case_stream(rng, tier, 'eb%d' % ci))
-        elif c in (4, 5, 6, 7):
+        elif c in (4, 5):
             cases.append(case_merge(rng, tier, 'eb%d' % ci))
+        elif c in (6, 7):
+            cases.append(case_merge_small(rng, tier, 'eb%d' % ci))
         elif c == 8:
             cases.append(case_equal(rng, tier, 'eb%d' % ci))
         else:
@@ -305,18 +342,18 @@ def sig_of(pred, sp):
        a registered defect; a failure observed there is reported under that defect's signature:
         - once a step has left the sample without floor(c) full items (+ a partial item iff frac(c) != 0) -- ghost 'site' --
           every predicate about c, sizes and contents can fail as a consequence: one signature per site;
-        - the bookkeeping defects (wt_max_ not updated by a merge, k mishandled when one side is empty) only affect
-          k and the closed form of c.
-       n, the cumulative weight and 'items from the input' always keep their plain signatures."""
+        - the bookkeeping defect "k mishandled when one side of a merge is empty" only affects k and the closed form of c.
+       n, the cumulative weight and 'items from the input' always keep their plain signatures.
+       (wt_max_ not stored by internal_merge is repaired by fixes/18_ebpps_merge_wt_max.patch: the model has the repaired
+       behaviour, so against the unrepaired code it shows up as a plain c_closed_form violation.)"""
     if pred in ('n_exact', 'cum_weight', 'cum_weight_exact'):
         return pred
     if pred == 'k_min':
         return pred + ('@k_kept_when_merging_empty_sketch' if sp['kskip'] else '')
     if sp['site'] and pred != 'items_from_input':
         return 'sample_shape_lost' + SITES.get(sp['site'], '@unknown_site')
-    if pred == 'c_closed_form':
-        return pred + ('@stale_wt_max_after_merge' if sp['taint'] else
-                       '@merge_into_empty_sketch_with_smaller_k' if sp['intoempty'] else
+    if pred == 'c_closed_form' and not sp['taint']:
+        return pred + ('@merge_into_empty_sketch_with_smaller_k' if sp['intoempty'] else
                        '@k_kept_when_merging_empty_sketch' if sp['kskip'] else '')
     return pred
 
